@@ -282,14 +282,17 @@ def readonly_unindexable_C15(ctx):
     if cached is None:
         hs = []
         O = ["tapesha"]
-        for (enc, sig) in (("age", ""), ("", "minisign"), ("pgp", "pgp"), ("", "")):
-            for how in ("fresh-otherkey", "fresh"):
+        for (enc, sig, ow) in (("age", "", False), ("", "minisign", False), ("pgp", "pgp", False), ("", "", False), ("", "", True)):
+            for how in ("fresh-otherkey", "fresh", "same-index"):
                 if how == "fresh-otherkey" and not (enc or sig):
                     continue
+                if how == "same-index" and not ow:
+                    continue
                 for nowrite in (False, True):
-                    hs.append({"config": {"rs": 20, "cache": "file", "enc": enc, "sig": sig, "comp": ""}, "blobs": [{"seed": 1, "len": 300}], "obs": [],
+                    # (ow: the drive manager of every instance is constructed with overwrite = true - only a WRITER may ever clear the drive)
+                    hs.append({"config": {"rs": 20, "cache": "file", "enc": enc, "sig": sig, "comp": ""}, "blobs": [{"seed": 1, "len": 300}], "obs": [], "_ow": ow,
                                "calls": [{"op": "initialize"}, {"op": "mkdir", "name": "/a", "perm": 0o755}, {"op": "createfile", "name": "/a/f", "blob": 0}, {"op": "nop", "obs": O},
-                                         {"op": "ro_switch", "flag": nowrite, "data": how, "obs": O, "tmo": 20000}, {"op": "stat", "name": "/", "obs": O}, {"op": "mkdir", "name": "/x", "perm": 0o755, "obs": O},
+                                         {"op": "ro_switch", "flag": nowrite, "data": (how if how != "same-index" else "") + ("+ow" if ow else ""), "obs": O, "tmo": 20000}, {"op": "stat", "name": "/", "obs": O}, {"op": "mkdir", "name": "/x", "perm": 0o755, "obs": O},
                                          {"op": "readfile", "name": "/a/f", "obs": O}]})
         hs = [h for h in streams.replay_override(ctx, "history", hs) if any(c["op"] == "ro_switch" and c.get("data") for c in h["calls"])]
         res = hist.run_many(hs, timeout=300)
@@ -305,6 +308,10 @@ def readonly_unindexable_C15(ctx):
             bad += 1
             ctx.violation("crash-or-hang", "opening a read-only instance with an empty index (%s, write backend %s) ended with exit code %s" % (how, "absent" if h["calls"][sw].get("flag") else "present", d["rc"]),
                           dict(history=h, stderr=d["err"], outcomes=[r["out"] for r in res]))
+            continue
+        if any(r["out"] != "ok" for r in res[:sw]):
+            bad += 1
+            ctx.violation("setup-failed", "the writable instance that prepares the tape failed", dict(history=h, outcomes=[r["out"] for r in res]))
             continue
         ref = res[sw - 1]["obs"].get("tape_sha")
         outs["%s:%s" % (how, res[sw]["out"])] += 1
